@@ -101,19 +101,25 @@ def r03_1_numbering(chk):
         g.must_pass_through({inc}, ENTRY, EXIT, exceptional=False)
     chk.require(ok, "R03.1", "every-record-counts", "a record can be produced without incrementing the frame counter "
                 "(or the counter is incremented without producing a record)", nx.where)
-    r0 = g.stmt[next(iter(rets))].value if rets else None
-    src = norm(r0).replace(" ", "") if r0 is not None else ""
-    chk.require(f"frame_number=self.{counter}" in src, "R03.1", "frame-number-is-the-counter",
-                "the frame number written is not the counter", nx.where)
-    nexts = [c for c in ast.walk(r0) if isinstance(c, ast.Call) and isinstance(c.func, ast.Name) and c.func.id == "next"] \
-        if r0 is not None else []
-    chk.require(len(nexts) == 1 and "slots=next(" in src, "R03.1", "one-row-per-record",
-                f"{len(nexts)} rows are consumed per record", nx.where)
-    stops = [s for s in walk_local(nx.node) if isinstance(s, ast.If) and any(isinstance(x, ast.Raise) and
-             "StopIteration" in norm(x) for b in s.body for x in ast.walk(b))]
-    ok = len(stops) == 1 and norm(stops[0].test).replace(" ", "") in (f"self.{counter}>=self._data_source.n_rows",)
+    from ..terms import SELF, A, K, is_call, call_arg, pp, return_alternatives, raise_conditions, contains
+    ns = chk.summary(nx)
+    made = [t for _, t in return_alternatives(ns)]
+    ok = bool(made) and all(is_call(t, "FrameData") and call_arg(t, kw="frame_number") == A(SELF, counter) for t in made)
+    chk.require(ok, "R03.1", "frame-number-is-the-counter",
+                f"the frame number written is `{[pp(call_arg(t, kw='frame_number') or t)[:40] for t in made]}`, not the "
+                f"counter", nx.where)
+    rows_taken = [call_arg(t, kw="slots") for t in made if is_call(t, "FrameData")]
+    ok = bool(rows_taken) and all(r is not None and is_call(r, "next", 1) and r[1] == ("global", "next") and
+                                  r[2][0][0] == "attr" and r[2][0][1] == SELF for r in rows_taken)
+    chk.require(ok, "R03.1", "one-row-per-record",
+                f"a record does not take exactly the next row of the frame's row generator "
+                f"({[pp(r)[:40] if r else None for r in rows_taken]})", nx.where)
+    stops = [pc for pc, exc in raise_conditions(ns) if contains(exc, lambda x: x == ("global", "StopIteration"))]
+    n_rows = [A(SELF, "_data_source", "n_rows"), ("call", ("global", "len"), (SELF,), ())]
+    ok = len(stops) >= 1 and all(any(l[0] == "cmp" and l[1] == ">=" and l[2] == A(SELF, counter) and l[3] in n_rows
+                                     for l in pc) for pc in stops)
     chk.require(ok, "R03.1", "stops-after-n-rows", f"iteration does not stop exactly after n_rows records "
-                f"({[norm(s.test) for s in stops]})", nx.where)
+                f"({[[pp(l)[:40] for l in pc] for pc in stops]})", nx.where)
     resets = [s for s in stores_in(it_) if s.attr == counter and try_const(s.value) == 0]
     chk.require(bool(resets), "R03.1", "counter-reset-per-iteration", "the frame counter is not reset when iteration "
                 "starts: a second write would continue the numbering", it_.where)
@@ -243,10 +249,18 @@ def r03_3_table(chk):
     chk.require(set(rows) == set(ref.DTYPE_CODES), "R03.3", "supported-dtypes", f"supported dtypes are {sorted(rows)}",
                 conv.where)
     val = conv.lookup("validate_numpy_dtype")
-    s = norm(val.node)
-    chk.require("not in ReprCodeConverter.numpy_dtypes_to_repr_codes" in s and "raise ValueError" in s, "R03.3",
-                "accepted-dtypes-are-the-table-keys", "dtype validation is not membership in the dtype table", val.where)
-    chk.require("number_type.name" in s and "number_type.__name__" in s, "R03.3", "dtype-identified-by-name",
+    from ..terms import raise_conditions as _rc, contains as _contains, pp as _pp
+    vs = chk.summary(val)
+    nt = ("param", val.param_names[-1])
+    table_guard = [pc for pc, _ in _rc(vs) if any(
+        l[0] == "cmp" and l[1] == "not in" and _pp(l[3]).endswith("numpy_dtypes_to_repr_codes") for l in pc)]
+    chk.require(bool(table_guard), "R03.3", "accepted-dtypes-are-the-table-keys",
+                "dtype validation is not membership in the dtype table (no raise under `<dtype name> not in <table>`)",
+                val.where)
+    names = [l[2] for pc in table_guard for l in pc if l[0] == "cmp" and l[1] == "not in"]
+    by_name = bool(names) and all(_contains(n_, lambda x: x[0] == "attr" and x[1] == nt and x[2] in ("name", "__name__"))
+                                  for n_ in names)
+    chk.require(by_name, "R03.3", "dtype-identified-by-name",
                 "dtype validation no longer identifies the dtype by its name", val.where, nontrivial=False)
 
 
@@ -255,24 +269,44 @@ def r03_4_slot_order(chk):
     mfd = ix.get_class("MultiFrameData")
     init = mfd.lookup("__init__")
     chk.consult(init)
-    g = CFG(init.node)
-    guards = [i for i in g.branch if "frame_channel_names" in norm(g.stmt[i].test)
-              and "data_channel_names" in norm(g.stmt[i].test) and "!=" in norm(g.stmt[i].test)]
-    ok = bool(guards) and any(g.kind[x] == "raise" for x in g.reachable(g.branch[guards[0]][0], exceptional=False))
-    stores = g.nodes_where(lambda s: isinstance(s, ast.Assign) and any(is_self_attr(t, "_data_source") for t in s.targets))
-    ok = ok and bool(stores) and all(g.dominated_by(sn, {g.branch[guards[0]][1]}) for sn in stores)
+    from ..terms import SELF, A, subterms, raise_conditions, pp
+    isum = chk.summary(init)
+    frame_p, data_p = ("param", "frame"), ("param", "data")
+    chans = A(frame_p, "channels", "value")
+
+    def ordered_names(t):
+        # tuple(c.name for c in frame.channels.value) - a tuple / list built from the channels in their order
+        for x in subterms(t):
+            if x[0] == "comp" and x[1] in ("gen", "list") and len(x[3]) == 1 and x[3][0][1] == chans and not x[3][0][2] \
+                    and x[2] == A(("elem", chans, x[2][1][2] if x[2][0] == "attr" and x[2][1][0] == "elem" else None), "name"):
+                return True
+        return False
+    guard_idx = None
+    for i, e in enumerate(isum.effects):
+        if e.kind != "raise" or len(e.pc) != 1 or e.ctx:
+            continue
+        l = e.pc[0]
+        if l[0] == "cmp" and l[1] == "!=" and ((ordered_names(l[2]) and l[3] == A(data_p, "dtype", "names")) or
+                                               (ordered_names(l[3]) and l[2] == A(data_p, "dtype", "names"))):
+            guard_idx = i
+    chk.require(guard_idx is not None, "R03.4", "guard-compares-ordered-names",
+                "no raise under `<the frame's channel names, in order> != <the chunk dtype's field names>`", init.where)
+    stores = [(i, e) for i, e in enumerate(isum.effects) if e.kind == "store_attr" and e.base == SELF
+              and e.value == data_p]
+    ok = guard_idx is not None and bool(stores) and all(i > guard_idx for i, _ in stores)
     chk.require(ok, "R03.4", "channel-order-guard-dominates", "a MultiFrameData can be built although the chunk fields "
                 "are not the frame's channels in the frame's order", init.where)
-    s = norm(init.node)
-    chk.require("tuple((c.name for c in frame.channels.value))" in s and "data.dtype.names" in s, "R03.4",
-                "guard-compares-ordered-names", "the guard does not compare the ordered channel names with the dtype's "
-                "field names", init.where)
     fr = ix.get_class("FrameItem")
+    from ..terms import return_alternatives as _ra
+    own_chans = A(SELF, "channels", "value")
     for prop in ("channel_name_mapping", "known_channel_dtypes_mapping"):
         p = fr.lookup(prop)
-        s = norm(p.node)
-        chk.require("for ch in self.channels.value" in s and p.kind == "property"
-                    and not any("cached" in d for d in p.decorators), "R03.4", f"mapping-from-frame-channels:{prop}",
+        ps = chk.summary(p)
+        built = [t for _, t in _ra(ps)]
+        ok = bool(built) and all(t[0] == "comp" and t[1] == "dict" and len(t[3]) == 1 and t[3][0][1] == own_chans
+                                 for t in built)
+        chk.require(ok and p.kind == "property" and not any("cache" in d for d in p.decorators), "R03.4",
+                    f"mapping-from-frame-channels:{prop}",
                     f"FrameItem.{prop} is not recomputed from the frame's channel list on every use", p.where)
     from ..terms import is_call as _is_call
     from ._layout import field_plan
